@@ -14,7 +14,7 @@ ASSUMPTIONS = ["aliasing and caching are runtime facts the functional model cann
 EXPLANATION = ("Lean: in the model every accessor is a function of an immutable Obj, so any call sequence returns the single-call "
                "results (theorem accessors_pure); assurance for the Python object comes from model-based differential execution "
                "of random accessor histories incl. mutation of returned dicts.")
-OPS = {"2": "svcrtejkJK=#!", "3": "svcnrtejkJK=#!", "4": "svcnrjkJK=#!"}
+OPS = {"2": "svcrtejkJK=#!w", "3": "svcnrtejkJK=#!w", "4": "svcnrjkJK=#!w"}
 
 
 def partner_of(ver, s, rng):
@@ -51,7 +51,7 @@ def predictions(pairs):
     can influence; {} when the driver is unavailable or the string cannot be sent"""
     pred = {}
     for ver in "234":
-        mask = "".join(c for c in OPS[ver] if c not in "=#!")
+        mask = "".join(c for c in OPS[ver] if c not in "=#!w")
         todo = sorted({x for v, x in pairs if v == ver and core.sendable(x)})
         if not todo:
             continue
@@ -147,7 +147,7 @@ def run(ctx):
     ctx.count(sum(len(c[4]) for c in cases))
     ctx.sample({"vector": cases[0][1], "partner": cases[0][2], "accessor_sequence": cases[0][4]})
     for ver in "234":
-        mask = "".join(c for c in OPS[ver] if c not in "=#!")
+        mask = "".join(c for c in OPS[ver] if c not in "=#!w")
         flat = [(v, s) for v, s, _, _, _ in cases if v == ver]
         if ctx.model_available and flat:
             n, dis, outs = core.compare_construct(flat, mask, ctx.tally)
